@@ -123,6 +123,19 @@ def check_hforms(ctx: Ctx, c: Dict[str, Any]) -> None:
             continue
         if got.shape[0] != e.shape[0] or max_err(got, e) > TOL * max(1.0, float(e.abs().max())):
             bad("homogeneous_matmul", f"chain ({label}) differs from the chain of pairwise products" + ("" if got.shape[0] == e.shape[0] else f" (batch {got.shape[0]} vs {e.shape[0]})"), chain=label, what="chain")
+    # applying with mixed dtypes: integer points (voxel indices) with a float transform, float points with an integer transform
+    try:
+        Pi_ = torch.tensor([[2, -1, 3][:D], [0, 4, 1][:D], [-3, 2, 2][:D]], dtype=torch.int64)
+        Pf_ = Pi_.double() + 0.25
+        for vflag in (False, True):
+            for label, T_, X_ in (("int points, float transform", a, Pi_), ("float points, int transform", (a * 2).round().to(torch.int64), Pf_), ("int32 points", b, Pi_.to(torch.int32))):
+                Xb = X_.unsqueeze(0) if T_.ndim == 3 else X_
+                got = homogeneous_transform(T_, Xb, vectors=vflag)
+                ref_ = homogeneous_transform(T_.double(), Xb.double(), vectors=vflag)
+                if not got.dtype.is_floating_point or got.shape != ref_.shape or max_err(got.double(), ref_) > TOL * max(1.0, float(ref_.abs().max())):
+                    bad("homogeneous_transform", f"{label} (vectors={vflag}): result {got.dtype} differs from the same operands in float64", what="mixed_dtype", dtypes=label, vectors=vflag)
+    except Exception as ex:
+        bad("homogeneous_transform", f"mixed dtypes raised {type(ex).__name__}: {str(ex)[:100]}", exc=type(ex).__name__, what="mixed_dtype")
     # operands of integer dtype (e.g. a permutation / flip matrix, a voxel shift) compose like the same numbers in floating point
     try:
         ai_ = (a * 2).round().to(torch.int64)
